@@ -71,8 +71,15 @@ def rule_mode_premise(ctx, rid="R0"):
     field = fields[0]
     # aggregate construction sites of the owner struct
     found = 0
-    for b in prog.bodies.values():
+    ctors = [b0 for b0 in prog.bodies.values()
+             if any(s["k"] == "assign" and s["rv"]["k"] == "agg" and s["rv"].get("def") == field[1]
+                    for bb in b0.normal_blocks() for s in b0.stmts(bb))]
+    for b0 in ctors:
+        # the constructor with its private helpers inlined (the mode switch may live in a helper)
+        b = ctx.flat(b0)
         for bb in b.normal_blocks():
+            if b.origin_key(bb)[0] != b0.path:
+                continue
             for s in b.stmts(bb):
                 if s["k"] != "assign" or s["rv"]["k"] != "agg" or s["rv"].get("def") != field[1]:
                     continue
